@@ -426,6 +426,7 @@ PROPS = (["TfelVerif.C23.PropsStress", "TfelVerif.C23.PropsN1"]
          + ["TfelVerif.C23.PropsN2%s" % g for g in N2_GROUPS] + ["TfelVerif.C23.PropsN2Chains"]
          + ["TfelVerif.C23.PropsN3_%s__%s" % p for p in N3_BASE] + ["TfelVerif.C23.PropsN3_" + x for x in CORES3]
          + ["TfelVerif.C23.PropsN3_SPATIAL_MODULI__DS_DEGL_aux%d" % k for k in range(6)]
+         + ["TfelVerif.C23.PropsN3_DPK1_DF__DS_DEGL_core_aux%d" % k for k in range(9)]
          + ["TfelVerif.C23.PropsN3Chains"]
          + ["TfelVerif.C23.PropsCompose%d" % n for n in (1, 2, 3)] + ["TfelVerif.C23.PropsNonVacuity"])
 
